@@ -66,6 +66,8 @@ step touches a pre-existing element; distinct = hash of (pre-population, step pr
             "probe.equal_value_reassigned",
             "probe.conflicting_value_assigned",
             "probe.conflict_inside_one_statement",
+            "probe.shorthand_expanded",
+            "probe.hub_with_many_edges_recreated",
             "probe.step_cancelled_midway",
             "probe.step_after_failed_step",
             "probe.new_nodes_after_existing",
@@ -218,6 +220,9 @@ pub enum Op {
     /// `for lv in [values] { attr (target) name = lv }` — one statement assigning several
     /// values in turn (target: a node, or an edge when the second field is set)
     LoopAttr(NodeX, Option<NodeX>, String, Vec<Lit>),
+    /// `attr (target) sh = value` where `sh` is the shorthand `sh = v => sa = v, sb = "const"`
+    /// (target: a node, or an edge when the second field is set)
+    ShortAttr(NodeX, Option<NodeX>, Lit),
 }
 
 #[derive(Clone, Debug, PartialEq, Eq)]
@@ -256,7 +261,7 @@ fn render_touch(per_pass: bool, old_nodes: u32, ops: &[Op], stamp: u32) -> Strin
                 note(b)
             }
             Op::AttrNode(a, _) => note(a),
-            Op::LoopAttr(a, b, _, _) => {
+            Op::LoopAttr(a, b, _, _) | Op::ShortAttr(a, b, _) => {
                 note(a);
                 if let Some(b) = b {
                     note(b)
@@ -270,6 +275,9 @@ fn render_touch(per_pass: bool, old_nodes: u32, ops: &[Op], stamp: u32) -> Strin
     let mut out = String::new();
     for i in &used_old {
         out.push_str(&format!("global gn{}\n", i));
+    }
+    if ops.iter().any(|o| matches!(o, Op::ShortAttr(..))) {
+        out.push_str("attribute sh = shv => sa = shv, sb = \"const\"\n");
     }
     out.push('\n');
     out.push_str(if per_pass { "(pass_statement) @_p\n{\n" } else { "(module) @_m\n{\n" });
@@ -290,6 +298,13 @@ fn render_touch(per_pass: bool, old_nodes: u32, ops: &[Op], stamp: u32) -> Strin
                 b.render(),
                 at.iter().map(|(k, v)| format!("{} = {}", k, v.render())).collect::<Vec<_>>().join(", ")
             )),
+            Op::ShortAttr(a, b, v) => {
+                let target = match b {
+                    Some(b) => format!("{} -> {}", a.render(), b.render()),
+                    None => a.render(),
+                };
+                out.push_str(&format!("  attr ({}) sh = {}\n", target, v.render()));
+            }
             Op::LoopAttr(a, b, k, vals) => {
                 let target = match b {
                     Some(b) => format!("{} -> {}", a.render(), b.render()),
@@ -358,6 +373,7 @@ struct Touches {
     equal_reassigned: u64,
     conflicting: u64,
     conflict_in_one_statement: u64,
+    shorthand_expansions: u64,
     touched_old: bool,
 }
 
@@ -407,7 +423,7 @@ fn apply_phase(m: &mut Model, ops: &[Op], stamp: u32, caps: &[CVal], phase: u8, 
             Op::NewNode(_) => true,
             Op::Edge(a, b) | Op::AttrEdge(a, b, _) => in_range(a) && in_range(b),
             Op::AttrNode(a, _) => in_range(a),
-            Op::LoopAttr(a, b, _, _) => in_range(a) && b.as_ref().map(|b| in_range(b)).unwrap_or(true),
+            Op::LoopAttr(a, b, _, _) | Op::ShortAttr(a, b, _) => in_range(a) && b.as_ref().map(|b| in_range(b)).unwrap_or(true),
         };
         if !ok {
             return Err("the program refers to a graph node that does not exist (global not supplied)".into());
@@ -429,7 +445,7 @@ fn apply_phase(m: &mut Model, ops: &[Op], stamp: u32, caps: &[CVal], phase: u8, 
                 (0, _) => true,
                 (1, Op::NewNode(_)) => true,
                 (2, Op::Edge(..)) => true,
-                (3, Op::AttrNode(..)) | (3, Op::AttrEdge(..)) | (3, Op::LoopAttr(..)) => true,
+                (3, Op::AttrNode(..)) | (3, Op::AttrEdge(..)) | (3, Op::LoopAttr(..)) | (3, Op::ShortAttr(..)) => true,
                 _ => false,
             };
             if !wanted {
@@ -468,6 +484,33 @@ fn apply_phase(m: &mut Model, ops: &[Op], stamp: u32, caps: &[CVal], phase: u8, 
                             Some(old) => {
                                 t.conflicting += 1;
                                 return Err(format!("attribute {} of node {} holds {:?}, assigned {:?}", k, a, old, v));
+                            }
+                        }
+                    }
+                }
+                Op::ShortAttr(a, b, v) => {
+                    let a = resolve(a, &locals);
+                    let b = b.as_ref().map(|b| resolve(b, &locals));
+                    if a < old_count {
+                        t.touched_old = true;
+                    }
+                    t.shorthand_expansions += 1;
+                    for (k, v) in [("sa".to_string(), resolve_lit(v, cap)), ("sb".to_string(), CVal::Str("const".into()))] {
+                        let target: &mut CAttrs = match b {
+                            None => &mut m.nodes[a as usize].attrs,
+                            Some(b) => match m.nodes[a as usize].edges.get_mut(&b) {
+                                Some(e) => e,
+                                None => return Err(format!("edge {} -> {} does not exist", a, b)),
+                            },
+                        };
+                        match target.get(&k) {
+                            None => {
+                                target.insert(k, v);
+                            }
+                            Some(old) if same_value(old, &v) => t.equal_reassigned += 1,
+                            Some(old) => {
+                                t.conflicting += 1;
+                                return Err(format!("attribute {} (expanded from a shorthand) holds {:?}, assigned {:?}", k, old, v));
                             }
                         }
                     }
@@ -657,6 +700,10 @@ fn gen_touch(r: &mut Rng, m: &Model, stamp: u32, conflict: bool) -> (bool, Vec<O
                     Some(Op::AttrEdge(NodeX::Old(c.0), NodeX::Old(c.1), vec![(c.2, c.3)]))
                 }
             }
+            7 if r.chance(1, 3) => {
+                // a shorthand that expands to two attributes
+                pick_node(r, news).map(|a| Op::ShortAttr(a, None, gen_lit(r)))
+            }
             6 if r.chance(1, 3) => {
                 // one statement assigning the same (equal) value several times
                 pick_node(r, news).map(|a| {
@@ -727,7 +774,14 @@ fn gen_touch(r: &mut Rng, m: &Model, stamp: u32, conflict: bool) -> (bool, Vec<O
         // conflicts that live inside ONE statement: a name repeated with different values, a
         // pre-existing value preceded by a different one, a loop assigning different values
         let target = pick_node(r, news);
-        match (r.below(5), target) {
+        let has_sa: Vec<u32> = m.nodes.iter().enumerate().filter(|(_, n)| n.attrs.contains_key("sa")).map(|(i, _)| i as u32).collect();
+        match (r.below(6), target) {
+            (5, _) if !has_sa.is_empty() => {
+                // the expansion of a shorthand hits an attribute that holds another value
+                let i = *r.pick(&has_sa);
+                let old = m.nodes[i as usize].attrs.get("sa").and_then(Lit::from_cval).unwrap_or(Lit::Null);
+                ops.push(Op::ShortAttr(NodeX::Old(i), None, different(r, &old)));
+            }
             (0, Some(t)) => {
                 let v = gen_lit(r);
                 let w = different(r, &v);
@@ -793,6 +847,8 @@ pub struct Stats {
     pub equal_reassigned: u64,
     pub conflicting: u64,
     pub conflict_in_one_statement: u64,
+    pub shorthand_expansions: u64,
+    pub hub_edges_recreated: u64,
     pub cancelled_midway: u64,
     pub step_after_failure: u64,
     pub new_after_existing: u64,
@@ -1062,6 +1118,10 @@ fn run_history_here(h: &History) -> (Stats, Option<Found>) {
                 st.equal_reassigned += t.equal_reassigned;
                 st.conflicting += t.conflicting;
                 st.conflict_in_one_statement += t.conflict_in_one_statement;
+                st.shorthand_expansions += t.shorthand_expansions;
+                if t.edge_recreated >= 10 {
+                    st.hub_edges_recreated += t.edge_recreated;
+                }
                 st.touched_old |= t.touched_old;
                 st.exact_checks += 1;
                 match (&predicted, &outcome) {
@@ -1109,9 +1169,50 @@ fn run_history(h: &History) -> Result<(Stats, Option<Found>), String> {
 // generation of histories (needs the model image after each step, so steps are generated while
 // simulating the model optimistically)
 
+/// A hub with dozens of attributed edges, some of which later calls create again: the edge
+/// list leaves its inline storage and any bulk handling of edges meets many equal sinks.
+fn hub_history(seed: u64, r: &mut Rng) -> History {
+    let n = r.range(22, 48) as u32;
+    let mut pre: Vec<Pre> = (0..n).map(|_| Pre::Node).collect();
+    for i in 1..n {
+        pre.push(Pre::Edge(0, i));
+        pre.push(Pre::EdgeAttr(0, i, "lab".into(), Lit::Int(i)));
+    }
+    let sources = vec![pysrc::passes(r.range(1, 2)), "x = 1\n".to_string()];
+    let n_steps = r.range(1, 2);
+    let mut steps = Vec::new();
+    for si in 0..n_steps {
+        let mut sinks: Vec<u32> = (1..n).collect();
+        r.shuffle(&mut sinks);
+        let k = r.range(10, (n - 1) as usize);
+        let mut ops: Vec<Op> = Vec::new();
+        ops.push(Op::NewNode(0));
+        for s in &sinks[..k] {
+            ops.push(Op::Edge(NodeX::Old(0), NodeX::Old(*s)));
+        }
+        ops.push(Op::Edge(NodeX::Old(0), NodeX::New(0)));
+        ops.push(Op::Edge(NodeX::New(0), NodeX::Old(0)));
+        if r.chance(1, 2) {
+            let s = sinks[r.below(k)];
+            ops.push(Op::AttrEdge(NodeX::Old(0), NodeX::Old(s), vec![("lab".into(), Lit::Int(s))]));
+        }
+        steps.push(Step {
+            program: Program::Touch { per_pass: r.chance(1, 3), old_nodes: n, ops, stamp: si as u32 + 1 },
+            tree: 0,
+            lazy: r.chance(2, 3),
+            cancel_at: None,
+            debug: false,
+        });
+    }
+    History { pre, sources, steps, hash_seed: rng::mix(seed, 0xc09) }
+}
+
 pub fn make_history(ctx: &ShardCtx, i: u64) -> History {
     let seed = ctx.run_seed(i);
     let mut r = Rng::sub(seed, "history");
+    if r.chance(1, 12) {
+        return hub_history(seed, &mut r);
+    }
     let pre = gen_pre(&mut r);
     let sources = vec![
         {
@@ -1235,6 +1336,7 @@ fn history_json(h: &History) -> J {
                             Op::Edge(a, b) => json!({"op": "edge", "a": nodex_json(a), "b": nodex_json(b)}),
                             Op::AttrNode(a, at) => json!({"op": "nattr", "a": nodex_json(a), "attrs": attrs_json(at)}),
                             Op::AttrEdge(a, b, at) => json!({"op": "eattr", "a": nodex_json(a), "b": nodex_json(b), "attrs": attrs_json(at)}),
+                            Op::ShortAttr(a, b, v) => json!({"op": "shortattr", "a": nodex_json(a), "b": b.as_ref().map(nodex_json), "v": v.to_json()}),
                             Op::LoopAttr(a, b, k, vals) => json!({"op": "loopattr", "a": nodex_json(a), "b": b.as_ref().map(nodex_json), "k": k, "values": vals.iter().map(|v| v.to_json()).collect::<Vec<_>>()}),
                         }).collect::<Vec<_>>(),
                     },
@@ -1282,6 +1384,11 @@ fn history_from_json(j: &J) -> History {
                                             "new" => Op::NewNode(x["i"].as_u64().unwrap_or(0) as usize),
                                             "edge" => Op::Edge(nodex_from(&x["a"]), nodex_from(&x["b"])),
                                             "nattr" => Op::AttrNode(nodex_from(&x["a"]), attrs_from(&x["attrs"])),
+                                            "shortattr" => Op::ShortAttr(
+                                                nodex_from(&x["a"]),
+                                                if x["b"].is_null() { None } else { Some(nodex_from(&x["b"])) },
+                                                Lit::from_json(&x["v"]),
+                                            ),
                                             "loopattr" => Op::LoopAttr(
                                                 nodex_from(&x["a"]),
                                                 if x["b"].is_null() { None } else { Some(nodex_from(&x["b"])) },
@@ -1362,7 +1469,7 @@ fn minimise(h: &History, f: Found) -> (History, Found) {
                             if ops.iter().any(|o| match o {
                                 Op::Edge(a, b) | Op::AttrEdge(a, b, _) => uses(a) || uses(b),
                                 Op::AttrNode(a, _) => uses(a),
-                                Op::LoopAttr(a, b, _, _) => uses(a) || b.as_ref().map(|b| uses(b)).unwrap_or(false),
+                                Op::LoopAttr(a, b, _, _) | Op::ShortAttr(a, b, _) => uses(a) || b.as_ref().map(|b| uses(b)).unwrap_or(false),
                                 _ => false,
                             }) {
                                 continue;
@@ -1444,6 +1551,8 @@ pub fn run_shard(ctx: &ShardCtx, rep: &mut Report) {
         rep.add("probe.equal_value_reassigned", st.equal_reassigned);
         rep.add("probe.conflicting_value_assigned", st.conflicting);
         rep.add("probe.conflict_inside_one_statement", st.conflict_in_one_statement);
+        rep.add("probe.shorthand_expanded", st.shorthand_expansions);
+        rep.add("probe.hub_with_many_edges_recreated", st.hub_edges_recreated);
         rep.add("probe.step_cancelled_midway", st.cancelled_midway);
         rep.add("probe.step_after_failed_step", st.step_after_failure);
         rep.add("probe.new_nodes_after_existing", st.new_after_existing);
